@@ -532,7 +532,7 @@ class CacheSim(object):
         info = {"ava": copy.deepcopy(ev["ava"]), "marker": ev["marker"]}
         if ev.get("with_name_id"):
             info["name_id"] = mk_nid(t)
-        outs = self.both(lambda c, p: c.set(mk_nid(t), src, dict(info), expv))
+        outs = self.both(lambda c, p: c.set(mk_nid(t), src, copy.deepcopy(info), expv))
         out = self.same_backends(i, outs, "set")
         if out[0] == "ok":
             self.model.setdefault(t, {})[src] = (expv, {"ava": copy.deepcopy(ev["ava"]), "marker": ev["marker"]})
@@ -545,7 +545,7 @@ class CacheSim(object):
         exp = self.now() + ev["off"]
         si = {"ava": copy.deepcopy(ev["ava"]), "name_id": mk_nid(t), "came_from": "/x", "issuer": src,
               "not_on_or_after": exp, "authn_info": [], "session_index": "s1", "marker": ev["marker"]}
-        outs = self.both(lambda c, p: nid_tuple(p.add_information_about_person(dict(si))))
+        outs = self.both(lambda c, p: nid_tuple(p.add_information_about_person(copy.deepcopy(si))))
         out = self.same_backends(i, outs, "add_person")
         if out[0] == "ok":
             self.model.setdefault(t, {})[src] = (exp, {"ava": copy.deepcopy(ev["ava"]), "marker": ev["marker"]})
@@ -825,21 +825,30 @@ def gen_c19(seed, tier):
     sources = ["https://idp-a.example/idp", "https://idp-b.example/idp", "https://aa.example/aa"]
     attrs = ["mail", "givenName", "eduPersonAffiliation"]
     n = r.pick([4, 6, 10, 14]) if tier == "quick" else r.pick([8, 14, 40, 200])
+    # swarm: every run concentrates on few subjects / sources / attribute names and on a random
+    # subset of the operation kinds, so that multi-step interactions are actually reached
+    focus_subj = r.pick([1.0, 0.85, 0.6, 0.34])
+    use_sources = sources[: r.pick([1, 2, 2, 3])]
+    use_attrs = attrs[: r.pick([1, 1, 2, 3])]
+    optional = ["add_person", "reset", "delete", "active", "entities", "stale", "subjects", "entityid", "jump", "reopen"]
+    enabled = set(r.subset(optional, r.pick([0.3, 0.5, 0.8]))) | {"set", "get", "identity"}
+    weights = [("set", 6), ("add_person", 2), ("get", 4), ("identity", 5), ("reset", 2), ("delete", 2),
+               ("active", 2), ("entities", 2), ("stale", 2), ("subjects", 1), ("entityid", 1),
+               ("jump", 3), ("reopen", 2)]
+    weights = [(k, w) for k, w in weights if k in enabled]
     evs = []
     mk = 0
     for _ in range(n):
-        k = r.weighted([("set", 6), ("add_person", 2), ("get", 4), ("identity", 5), ("reset", 2), ("delete", 2),
-                        ("active", 2), ("entities", 2), ("stale", 2), ("subjects", 1), ("entityid", 1),
-                        ("jump", 3), ("reopen", 2)])
-        s = r.randrange(3)
-        src = r.pick(sources)
+        k = r.weighted(weights)
+        s = 0 if r.chance(focus_subj) else r.randrange(3)
+        src = r.pick(use_sources)
         e = {"k": k, "dt": r.pick([0, 0, 0.5, 1, 1, 2, 60])}
         if k in ("set", "add_person"):
             mk += 1
             ava = {}
-            for a in r.sample(attrs, r.randrange(0, 3)):
+            for a in r.sample(use_attrs, r.randrange(0 if len(use_attrs) > 1 else 1, len(use_attrs) + 1)):
                 ava[a] = ["v%d-%d" % (mk, j) for j in range(r.randrange(1, 3))] + (["shared"] if r.chance(0.3) else [])
-            e.update({"s": s, "src": src, "off": r.pick([-3600, -1, 0, 1, 3600, -2, 2, 5]), "ava": ava,
+            e.update({"s": s, "src": src, "off": r.pick([-3600, -1, 0, 1, 3600, -2, 2, 5, 3600, 600]), "ava": ava,
                       "marker": "m%d" % mk, "form": r.pick(["int", "int", "struct"]),
                       "with_name_id": r.chance(0.5)})
             if k == "add_person":
@@ -848,7 +857,7 @@ def gen_c19(seed, tier):
             e.update({"s": s, "src": src, "check": r.chance(0.8), "via_pop": r.chance(0.3)})
         elif k == "identity":
             ents = None
-            if r.chance(0.4):
+            if r.chance(0.3):
                 ents = r.sample(sources, r.randrange(1, 3))
             e.update({"s": s, "entities": ents, "check": r.chance(0.85), "via_pop": r.chance(0.3)})
         elif k == "delete":
@@ -863,7 +872,8 @@ def gen_c19(seed, tier):
             e.update({"delta": r.pick([-3600, -2, -1, 1, 2, 3, 3600, 7200])})
         evs.append(e)
     return {"engine": "storesim", "prop": "C19", "seed": seed, "tier": tier, "subjects": subjects,
-            "knobs": {"n": n}, "events": evs}
+            "knobs": {"n": n, "focus_subject": focus_subj, "sources": len(use_sources), "attrs": len(use_attrs),
+                      "enabled": sorted(enabled)}, "events": evs}
 
 
 def generate(seed, prop, tier):
